@@ -176,12 +176,13 @@ fn random_numeral(rng: &mut Rng) -> String {
 fn near_miss(rng: &mut Rng, s: &str) -> String {
     let cs: Vec<char> = s.chars().collect();
     let mut v = cs.clone();
-    match rng.below(6) {
+    match rng.below(7) {
         0 => { let i = rng.below(v.len() + 1); v.insert(i, ','); }
         1 => { v.push('.'); }
         2 => { let i = rng.below(v.len()); let u = *rng.pick(&['十', '百', '千', '万', '億', '兆']); v.insert(i, u); }
         3 => { if v.len() > 1 { let i = rng.below(v.len() - 1); v.swap(i, i + 1); } }
         4 => { let i = rng.below(v.len()); v.insert(i, '.'); }
+        5 => { for c in ['1', '.', '5', '千', '6', '0', '0'] { v.push(c); } v.push(if rng.chance(1, 2) { '.' } else { ',' }); }
         _ => { if let Some(i) = v.iter().position(|c| *c == ',') { v.remove(i); let j = (i + 1).min(v.len()); v.insert(j, ','); } else { v.insert(0, ','); } }
     }
     v.into_iter().collect()
@@ -195,7 +196,9 @@ pub fn record(args: &[String]) -> i32 {
     let mut rng = Rng::new(seed);
     let dict = numeral_dict(true, true);
     let fixtures = ["1000", "001000", "〇一〇〇〇", "00.1000", "000", "二十七", "千三百二十七", "千十七", "三千二百十七", "千", "万", "5万", "三千二百十七万", "1.5千", "1.5百万", "1.5百万1.5千20",
-        "1.5千5百", "1.5千500", "6.", "6.ア", ".6", "1,000", "0,000", "000,000", "2,4", "1000,00", "一,億", "1,,000", "123,456,789", "1,234.56", "二〇〇〇万", "一億三千万", "六三四", "1,234,567.89", "12,345,6", "二万1.5千", "1.5億2,300", "3.2兆4,500.75"];
+        "1.5千5百", "1.5千500", "6.", "6.ア", ".6", "1,000", "0,000", "000,000", "2,4", "1000,00", "一,億", "1,,000", "123,456,789", "1,234.56", "二〇〇〇万", "一億三千万", "六三四", "1,234,567.89", "12,345,6", "二万1.5千", "1.5億2,300", "3.2兆4,500.75",
+        // groups that do not add up, followed by a dangling separator (the part before the separator is not a numeral either)
+        "1.5千600.", "3.27万2604.", "1.5千600,", "二千三千.", "1万2万,", "1.5千600", "3.27万2604", "7,726兆955億7.16万8637."];
     let lefts = ["は", "", "ア", "、", "カタカナ", "円"];
     let rights = ["円", "", "は", "ア", "。", "カ"];
     let mut run = 0usize;
